@@ -46,12 +46,15 @@ Tok ==   \* token -> value
     oC |-> V("inst", NoNum, "C"), mod |-> V("module", NoNum, ""), obj |-> V("object", NoNum, ""),
     \* values whose __class__ differs from their type: a weakref.proxy of an A instance (isinstance(v, A) holds, type(v)
     \* is the proxy type); an object whose __class__ attribute says str
-    pxA |-> V("proxy", NoNum, "A"), lieS |-> V("liar", NoNum, "str") ]
+    pxA |-> V("proxy", NoNum, "A"), lieS |-> V("liar", NoNum, "str"),
+    \* an instance of the very class that declares the trait (for This), alone and as the first item of a pair
+    oSelf |-> V("self", NoNum, ""), t_selfa |-> V("tuple", NoNum, "T") ]
 Tokens == DOMAIN Tok
 \* items of the sequence-valued tokens
 Items(t) == CASE t = "t_" -> <<>> [] t = "t_1a" -> <<"i1", "s_a">> [] t = "t_2h5" -> <<"f2h", "s_5">>
               [] t = "t_1a1" -> <<"i1", "s_a", "i1">> [] t = "t_12" -> <<"i1", "i2">>
-              [] t = "t_s10s9" -> <<"s_10", "s_9">> [] t = "t_s9s10" -> <<"s_9", "s_10">> [] t = "l_1a" -> <<"i1", "s_a">> [] OTHER -> <<>>
+              [] t = "t_s10s9" -> <<"s_10", "s_9">> [] t = "t_s9s10" -> <<"s_9", "s_10">> [] t = "l_1a" -> <<"i1", "s_a">>
+              [] t = "t_selfa" -> <<"oSelf", "s_a">> [] OTHER -> <<>>
 
 \* ---- results
 Store(w) == [tag |-> "store", w |-> w, e |-> ""]
@@ -249,6 +252,8 @@ Py(cfg, t) ==
                            ELSE IF cfg.mn = 1 THEN Reject ELSE Store(V("none", NoNum, ""))
     [] cfg.t = "Instance" -> IF (cfg.an /\ Ty(t) = "none") \/ IsInstanceOf(t, cfg.k) THEN Same(t) ELSE Reject
     [] cfg.t = "Type" -> IF (cfg.an /\ Ty(t) = "none") \/ IsSubclassOf(t, cfg.k) THEN Same(t) ELSE Reject
+    \* This(allow_none): an instance of the class of the object the trait belongs to
+    [] cfg.t = "This" -> IF (cfg.an /\ Ty(t) = "none") \/ Ty(t) = "self" THEN Same(t) ELSE Reject
     \* String: strx, then length and regex; the result is an exact str (num carries its length)
     [] cfg.t = "String" ->
          IF IsStringType(t) /\ cfg.mn <= StrLenOf(t) /\ (cfg.mx = None9 \/ StrLenOf(t) <= cfg.mx) /\ (~cfg.re \/ MatchesA(t))
@@ -330,6 +335,8 @@ Fast(cfg, t) ==
                            ELSE IF cfg.mn = 1 THEN Reject ELSE Store(V("none", NoNum, ""))
     [] cfg.t = "Instance" -> IF (cfg.an /\ Ty(t) = "none") \/ IsInstanceOf(t, cfg.k) THEN Same(t) ELSE Reject
     [] cfg.t = "Type" -> IF (cfg.an /\ Ty(t) = "none") \/ IsSubclassOf(t, cfg.k) THEN Same(t) ELSE Reject
+    \* validate_trait_self_type on (self_type,) / (self_type, None): PyObject_TypeCheck(value, Py_TYPE(obj))
+    [] cfg.t = "This" -> IF (cfg.an /\ Ty(t) = "none") \/ Ty(t) = "self" THEN Same(t) ELSE Reject
     [] cfg.t = "Callable" -> IF (Ty(t) = "none" /\ cfg.an) \/ IsCallable(t) THEN Same(t) ELSE Reject
     [] cfg.t = "Map" -> IF \E m \in cfg.vals : EqTok(t, m) /\ Ty(t) \notin {"list"} THEN Same(t) ELSE Reject   \* PyDict_GetItem
     [] cfg.t \in {"String", "PrefixMap", "PrefixList", "VTuple"} -> Py(cfg, t)                  \* no fast validator
@@ -396,6 +403,7 @@ InDomain(cfg, w, members) ==       \* members: stored member values when w is a 
     [] cfg.t = "InstAd" -> ((cfg.an \/ cfg.mn = 2) /\ w.ty = "none")         \* (mode "default": the default value, None)
                            \/ (w.ty \in {"inst", "proxy"} /\ (w.s = cfg.k \/ (cfg.k = "A" /\ w.s = "B")))
     [] cfg.t = "Type" -> (cfg.an /\ w.ty = "none") \/ (w.ty = "class" /\ (w.s = cfg.k \/ (cfg.k = "A" /\ w.s = "B")))
+    [] cfg.t = "This" -> (cfg.an /\ w.ty = "none") \/ w.ty = "self"
     [] cfg.t = "Callable" -> (cfg.an /\ w.ty = "none") \/ w.ty \in {"function", "class"}
     [] cfg.t = "Tuple" -> w.ty = "tuple" /\ (cfg.ms = <<>> \/ Len(members) = Len(cfg.ms))
                           /\ (cfg.ms = <<>> \/ \A k \in 1..Len(members) : InDomain(cfg.ms[k], members[k], <<>>))
